@@ -270,25 +270,27 @@ class Machine:
                'k:tok': raw[0], 'k:ptype': ptype}
         if depth > 0:
             env['k:D'] = depth
-        wsign = None
         ck = (key, mode, tuple(sorted(env.items())))
         hit = self.cache.get(ck)
         if hit is None:
             hit = [o for o in bymode[mode] if self.holds(o['cond'], env)]
             self.cache[ck] = hit
         cands = []
+        memo = {}
         for o in hit:
             ok = True
             for (kinds, sign) in o.get('cmps', ()):
-                if kinds == ('level', 'local'):
-                    ok = ok and sign == -1            # valid document: every name is greater than the previous one
-                elif kinds == ('local', 'wanted'):
-                    if wsign is None:
-                        need(want is not None, '%s: a lookup comparison is made outside a lookup' % self.prop)
-                        wsign = want(ti)
-                    ok = ok and sign == wsign
-                else:
-                    raise AnalysisBroken('%s: unexpected name comparison %r in the token loop' % (self.prop, kinds))
+                if kinds not in memo:
+                    memo[kinds] = self.oracle(kinds, ti, nametok, want)
+                ok = ok and sign == memo[kinds]
+            if ok and not lookup or ok:
+                # a name is compared with the previous one exactly when one is recorded at this level
+                has_order_cmp = any(k == ('level', 'local') for (k, sg) in o.get('cmps', ()))
+                records_name = any(f == 'current_name.bptr' and d_[0] == 'ptr' for ((lv_, f), d_) in o['eff'])
+                if has_order_cmp and nametok is None:
+                    ok = False
+                if records_name and not has_order_cmp and nametok is not None:
+                    ok = False
             if ok:
                 cands.append(o)
         views = {}
@@ -317,7 +319,7 @@ class Machine:
             elif field == 'current_type':
                 c = val
             elif field == 'name':
-                n = ti
+                n = ti if val else None
             lv[i] = (f, a, c, n)
         nd = depth + ddepth
         if cursor == 'adv':
@@ -336,6 +338,17 @@ class Machine:
             return ('cont', nst, retsf)
         return ('ret', nst, retsf)
 
+    def oracle(self, kinds, ti, nametok, want):
+        """answers for the oracles the step relation was extracted with; this default describes a VALID document"""
+        if kinds == ('level', 'local'):
+            return -1             # every name is greater than the previous one of its object
+        if kinds == ('local', 'wanted'):
+            need(want is not None, '%s: a lookup comparison is made outside a lookup' % self.prop)
+            return want(ti)
+        if kinds == ('intform',):
+            return 1              # integers are in their shortest form
+        raise AnalysisBroken('%s: unexpected oracle question %r in the token loop' % (self.prop, kinds))
+
     def view(self, o, env):
         eff = []
         for ((lvl, field), desc) in o['eff']:
@@ -352,8 +365,13 @@ class Machine:
                 eff.append((lvl, field, val))
             elif field == '*':
                 eff.append((lvl, '*', 0))
-            elif field is not None and str(field).startswith('current_name'):
-                eff.append((lvl, 'name', 0))
+            elif field == 'current_name.bptr':
+                if desc[0] == 'ptr':
+                    eff.append((lvl, 'name', 1))          # a name span is recorded
+                elif desc[0] == 'null' or desc == ('c', 0):
+                    eff.append((lvl, 'name', 0))          # the recorded name is cleared
+                else:
+                    raise AnalysisBroken('%s: the name pointer written by a step is neither a span nor NULL: %r' % (self.prop, desc))
         cur = o['cursor']
         if cur == 'back' and o['cursor_by'][0] == 'c' and o['cursor_by'][1] == 0:
             cur = 'same'
